@@ -749,11 +749,16 @@ class KlongInterpreter():
         # Parse cache — keyed by (source, module) since parsing depends on
         # the active module (symbols get module-qualified names).
         cache_key = (x, self._module)
-        cached = self._parse_cache.get(cache_key)
-        if cached is None:
+        entry = self._parse_cache.get(cache_key)
+        if entry is None:
             i, prog = self.prog(x)
             cached = prog[0] if len(prog) == 1 else prog
-            self._parse_cache[cache_key] = cached
+            # Parsing has a side effect: reading .module(...) switches the
+            # parse-time module. Remember the module the parse ended in so a
+            # cache hit can replay that effect instead of silently skipping it.
+            self._parse_cache[cache_key] = (cached, self._module)
+        else:
+            cached, self._module = entry
 
         # Try compiled path (single expressions only)
         if type(cached) is not list:
